@@ -55,6 +55,16 @@ func vrtRunOne(v vrtVector) (res *vrtRun) {
 		h()
 		res.Outcome = "ok"
 	}()
+	defer func() {
+		if res.sched != nil {
+			res.sched.mu.Lock()
+			res.SchedTurn, res.SchedLen, res.Desync = res.sched.turn, len(res.sched.order), res.sched.desync
+			if os.Getenv("VERIF_SCHED_DEBUG") != "" {
+				res.Trace = append([]int(nil), res.sched.arrivals...)
+			}
+			res.sched.mu.Unlock()
+		}
+	}()
 	select {
 	case <-done:
 	case <-time.After(vrtReplayTimeout):
